@@ -214,6 +214,23 @@ static int do_ann(hwloc_topology_t t, char *line)
   if (!strcmp(op, "misc") && sscanf(line, "%u %4095s", &k, s1) == 2) {
     hwloc_obj_t o = pick(t, k); char *n = unhx(s1, NULL); hwloc_obj_t m = hwloc_topology_insert_misc_object(t, o, n); free(n); return m ? 0 : -1;
   }
+  if (!strcmp(op, "miscsub")) {
+    /* miscsub <parent k> <name> <subtype> <ninfos> <name value>...: a Misc object with a subtype and infos */
+    unsigned ni, i; int skip = 0; hwloc_obj_t o, m; char *n, *st;
+    if (sscanf(line, "%u %4095s %8191s %u%n", &k, s1, s2, &ni, &skip) < 4) return -1;
+    line += skip;
+    o = pick(t, k); n = unhx(s1, NULL); st = unhx(s2, NULL);
+    m = hwloc_topology_insert_misc_object(t, o, n); free(n);
+    if (!m) { free(st); return -1; }
+    if (st) { hwloc_obj_set_subtype(t, m, st); free(st); }
+    for (i = 0; i < ni; i++) {
+      char *a, *b;
+      if (sscanf(line, "%4095s %8191s%n", s1, s2, &skip) < 2) break;
+      line += skip;
+      a = unhx(s1, NULL); b = unhx(s2, NULL); hwloc_obj_add_info(m, a, b); free(a); free(b);
+    }
+    return 0;
+  }
   if (!strcmp(op, "group")) {
     unsigned dm, kind, subkind; hwloc_obj_t a, b, g, r;
     if (sscanf(line, "%u %u %u %u %u", &k, &k2, &dm, &kind, &subkind) != 5) return -1;
